@@ -245,14 +245,17 @@ pub fn c11(tier: &str, seed: u64, meta: &str) -> Report {
             evs.push(if rng.chance(1, 2) { SEv::Finish } else { SEv::Commit(0) });
             feed(w, &mut s, &evs, rep, "C11");
         }
+        // (fixed method) a word whose dictionary completions depend on an option, typed before the update as well
+        if !s.phonetic { if let Some(mut k) = fpr.keys_for("গর") { k.push(SEv::Finish); feed(w, &mut s, &k, rep, "C11"); } }
         // the update
         let upd: SEv = match kind {
             0 | 1 => {
-                let edit = match rng.below(6) {
+                let edit = match rng.below(7) {
                     0 => UacEdit::Keep,
                     1 => UacEdit::Delete,
                     2 => UacEdit::Write(vec![("kkk".into(), "kaka".into()), ("tst".into(), "TesT".into())]), // entry removed
                     3 => UacEdit::Write(vec![("jhal".into(), "jhaal".into()), ("kkk".into(), "kaka".into()), ("ami".into(), "amra".into())]), // changed + added
+                    5 => UacEdit::Replace(vec![("jhal".into(), "jhola".into()), ("tst".into(), "TesT".into())]), // saved as a new file and renamed over the old one
                     4 => UacEdit::Raw(b"{\"jhal\": \"jha".to_vec()), // cut off in the middle of a save: an empty list for a new context
                     _ => UacEdit::Write(vec![]),
                 };
@@ -311,7 +314,7 @@ pub fn c11(tier: &str, seed: u64, meta: &str) -> Report {
         if s.layout_tag == "?" { fresh.model_dead = true; }
         for n in 0..(2 + rng.below(3)) {
             let mut evs = if s.phonetic { let t = if n == 0 { "jhal".to_string() } else { pword(&mut rng) }; if !fpr.p.typeable(&t) { continue; } fpr.p.key_events(&t, 0) }
-                else { let mut k = xword(&mut rng, &s.opts.layout); if n == 0 { if let Some(x) = fpr.keys_for("কা") { k = x; } k.push(SEv::Key(0x004C, 0, 0)); } k };
+                else { let mut k = xword(&mut rng, &s.opts.layout); if n == 0 { if let Some(x) = fpr.keys_for("কা") { k = x; } k.push(SEv::Key(0x004C, 0, 0)); } if n == 1 { if let Some(x) = fpr.keys_for("গর") { k = x; } } k };
             evs.push(SEv::Finish);
             let a = feed(w, &mut s, &evs, rep, "C11");
             let b = feed(w, &mut fresh, &evs, rep, "C11");
@@ -326,7 +329,7 @@ pub fn c11(tier: &str, seed: u64, meta: &str) -> Report {
         rep.nontrivial_key(&format!("{} {:?}", kind, upd));
         if rep.samples.len() < 2 && i % 101 == 7 { rep.sample(json!({"update": upd.json(), "events": s.history.len()})); }
     });
-    rep.extra.insert("rule".into(), json!("cases = (initial configuration, a history ending idle, update_engine, a continuation): phonetic option flips with user auto-correct edits in between (kept, deleted, entry removed, entries changed/added, emptied, cut off in the middle; modification times set explicitly, alternately 0.3 s and 10 s apart), phonetic -> fixed, fixed -> phonetic, phonetic -> fixed -> (auto-correct file edited) -> phonetic, fixed -> fixed with another layout file (incl. a different file of the same name in another directory, and two files whose names differ in letter case only), fixed option flips (incl. the number-pad option followed by a number-pad key); the continuation is replayed in the updated context and in a context newly created with the new configuration over the same files; both also compared with the extracted model"));
+    rep.extra.insert("rule".into(), json!("cases = (initial configuration, a history ending idle, update_engine, a continuation): phonetic option flips with user auto-correct edits in between (kept, deleted, entry removed, entries changed/added, emptied, cut off in the middle, replaced by rename; modification times set explicitly, alternately 0.3 s and 10 s apart), phonetic -> fixed, fixed -> phonetic, phonetic -> fixed -> (auto-correct file edited) -> phonetic, fixed -> fixed with another layout file (incl. a different file of the same name in another directory, and two files whose names differ in letter case only), fixed option flips (incl. the number-pad option followed by a number-pad key); the continuation is replayed in the updated context and in a context newly created with the new configuration over the same files; both also compared with the extracted model"));
     rep
 }
 
